@@ -21,7 +21,8 @@ CLAIMS = {
          "obligation); an arbitrary iteration of the per-cell loop: skipped only if the cell is static and then nothing is written, otherwise "
          "the per-node mass is density*volume/#live nodes; an arbitrary iteration of the node loop: the documented law for uncoupled live "
          "nodes, force reset, dead slots and every other node untouched; coupled pairs (model 1): same displacement, law on the averaged state, "
-         "total momentum follows total force, forces reset. All cells, nodes, forces, momenta, dt, damping, masses symbolic."),
+         "total momentum follows total force, forces reset. All cells, nodes, forces, momenta, dt, damping, masses symbolic. Contact model 2 is "
+         "outside the contracts; a BOUNDED native population check (one small population, all six contact x dynamic configurations) stands in for it and is reported as bounded."),
    design='6 C03', technique='contract-based deductive verification: loop-body contracts (arbitrary iteration from an arbitrary state) on the clang AST + SMT (non-linear real arithmetic)',
    note=NOTE_COMMON + " Mutual, valid couplings are the property's hypothesis (preconditions); contact model 2 is not under contract; 'each node once per call' is for-loop semantics."),
  'C04': dict(
@@ -37,11 +38,14 @@ CLAIMS = {
          "iteration: padded extent stored at 6*i, global box grows), box test (iff inside), grid filling (voxel range of a face from the box "
          "corners, inside the grid; innermost iteration places the face in the visited voxel), candidate loop (candidates = list of the "
          "node's voxel; every other-cell face whose box contains the node and passes the normal rule reaches the contact rule), plus two "
-         "arithmetic lemmas (padding lemma, monotone voxel index). Composition written in the evidence: a pair is discarded only beyond the cut-off."),
+         "arithmetic lemmas (padding lemma, monotone voxel index). Composition written in the evidence: a pair is discarded only beyond the cut-off. "
+         "Checked in two compile-time configurations (contact model 1 and contact model 0, whose constructor and candidate loop have their own contracts); double->float conversions round."),
    design='6 C06', technique='contract-based deductive verification: chain of function / loop-body / loop-prefix contracts on the clang AST with callee contracts from C20, SMT',
    note=NOTE_COMMON + " The composition of the links and for-loop semantics are mathematics stated in the evidence; other compile-time contact models' candidate loops are unverified."),
  'C07': dict(
-   text=("Contract on the real per-pair contact rule of the shipped contact model (node-node coupling), all nodes, faces, cell types and strengths "
+   text=("Contracts on the real per-pair contact rule of each of the three compile-time contact models (model 1 as shipped; model 0: node-face springs with "
+         "the virtual polarisation call dispatched over all cell classes; model 2: face-face coupling with per-node std::map), and on the call sites (the rule is "
+         "called only with a face of another cell). For model 1: all nodes, faces, cell types and strengths "
          "symbolic, kernel through its C05 contract: action = reaction on the four nodes and nothing else written, forces only below the "
          "cut-off and only on the forbidden side (with the ECM / nucleus reversals), node force directed at the closest surface point and "
          "reaction distributed by the barycentric weights, couplings only between epithelial cells within the adhesion cut-off; and the reset "
@@ -52,7 +56,8 @@ CLAIMS = {
    text=("Contracts where identities are created and the population changes: id loop of the solver constructor, division loop and renumbering "
          "loop of cell_divider::run (arbitrary iterations, divide_cell by contract), the caller-visible id counter of solver::run_iteration "
          "with cell_divider::run inlined (loop invariant on the solver's field), removal followed by renumbering in run_iteration, and the "
-         "coupling written by the per-pair contact rule (position index of the partner cell, node of the visited face). Any population size, "
+         "coupling written by the per-pair contact rule (position index of the partner cell, node of the visited face); whole-list POP-INV by loop "
+         "invariant for the renumbering loops of cell_divider::run and solver::run_iteration (suffix contracts). Any population size, "
          "any position of the dividing / removed cells."),
    design='6 C08', technique='contract-based deductive verification: loop-body / prefix contracts, inlined callee with loop invariant on caller state, callee contracts, SMT',
    note=NOTE_COMMON + " divide_cell's contract is assumed here (C09); face-type indices and owner pointers are named unverified."),
